@@ -8,7 +8,11 @@ Record c09case := mkC09 {
   k9_raw : string;         (* URL.EscapedPath(): what gorilla/mux matches (UseEncodedPath) *)
   (* Go observations: kind 0 found, 1 not found, 2 method not allowed, 3 panic *)
   g9_legacy_kind : N; g9_legacy_template : string; g9_legacy_params : list (string * string);
-  g9_gorilla_kind : N; g9_gorilla_template : string; g9_gorilla_params : list (string * string)
+  g9_gorilla_kind : N; g9_gorilla_template : string; g9_gorilla_params : list (string * string);
+  (* documents with servers: [k9_path]/[k9_raw] are what follows the matched server (matching a
+     server is specified on the harness side: first declared server, variables over default and
+     enum values, prefix at a segment boundary); [k9_noserver]: no declared server matches the URL *)
+  k9_noserver : bool
 }.
 
 (* route ids: index into the list of (template, method) pairs, sorted as given *)
@@ -80,6 +84,10 @@ Definition fills_some (k : c09case) (path : string) : bool :=
           (k9_paths k).
 
 Definition judge (k : c09case) : N :=
+  if k9_noserver k then
+    (* a URL matching no server yields a not-found route error, never a route *)
+    (if N.eqb (g9_legacy_kind k) 1 && N.eqb (g9_gorilla_kind k) 1 then J_OK else J_VIOL)
+  else
   (* models *)
   let '(root, tab) := add_routes (k9_paths k) 0 (T [] None []) in
   let literal := assoc (k9_path k) (k9_paths k) in
